@@ -128,7 +128,7 @@ class Translator:
         def visit(n):
             if n.kind == "macro" and n.name in ("panic", "unreachable", "todo", "unimplemented", "assert"):
                 found.append(1)
-            if n.kind == "loop":
+            if n.kind in ("loop", "while"):
                 found.append(1)
             if n.kind == "mcall" and self.is_self(n.recv) and n.name in self.fns and self.fns[n.name].can_fail:
                 found.append(1)
@@ -251,6 +251,7 @@ class Translator:
         self.muts = self.assigned_vars(f.body)
         self.loop_depth = 0
         self.broke_flags = []
+        self.exit_n = 0
         self.env = [{}]
         self.mutset = set()
         em = Emitter()
@@ -611,16 +612,23 @@ class Translator:
         elif k == "unsafe":
             self.block_stmts(e.body)
         elif k == "while":
+            # like `loop`: leaving the loop because the fuel ran out (and not because the condition failed or a
+            # `break` was taken) is failure - the translated function then answers `none`, never a made-up value
+            flag = f"__exit{self.exit_counter()}"
+            self.em.w(f"let mut {flag} := false")
             self.em.w("for _ in Fuel.mk fuel do")
             self.em.ind += 1
-            self.broke_flags.append(None)
+            self.broke_flags.append(flag)
             c = self.cond(e.cond)
-            self.em.w(f"if ¬ ({c}) then break")
+            self.em.w(f"if ¬ ({c}) then")
+            self.em.w(f"  {flag} := true")
+            self.em.w("  break")
             self.block_stmts(e.body)
             self.broke_flags.pop()
             self.em.ind -= 1
+            self.em.w(f"if ¬ {flag} then failure")
         elif k == "loop":
-            flag = f"__exit{len(self.broke_flags) + 1}"
+            flag = f"__exit{self.exit_counter()}"
             self.em.w(f"let mut {flag} := false")
             self.em.w("for _ in Fuel.mk fuel do")
             self.em.ind += 1
@@ -650,6 +658,10 @@ class Translator:
                 raise Untranslatable(f"expression statement without effect: {e!r}")
         else:
             raise Untranslatable(f"expression statement {k}")
+
+    def exit_counter(self):
+        self.exit_n = getattr(self, "exit_n", 0) + 1
+        return self.exit_n
 
     def iter_expr(self, it):
         # path.iter().rev()  |  path.iter()
@@ -1303,6 +1315,7 @@ class HashSetProfile(TreeProfile):
         self.aliases = {}
         self.muts = {"it_bucket", "it_node"}
         self.broke_flags = []
+        self.exit_n = 0
         self.env = [{"it_bucket": "it_bucket", "it_node": "it_node"}]
         self.mutset = {"it_bucket", "it_node"}
         self.mutself = False
@@ -1318,7 +1331,7 @@ class HashSetProfile(TreeProfile):
         finally:
             self.next_mode = False
         hdr = (f"def {fi.lean_name} {self.PRE_PARAMS} (m : HImage β) (it_bucket0 it_node0 : Nat) :\n"
-               f"    Option β × Nat × Nat := Id.run do")
+               f"    Option (Option β × Nat × Nat) := do")
         return f"/-- `HashSetIterator::next` (line {f.src_line}): the item, and the iterator's `bucket` / `node` afterwards. -/\n" + hdr + "\n" + "\n".join(self.em.lines)
 
     next_mode = False
